@@ -133,6 +133,9 @@ function genOpExpr (rng, ctx, d, label, nested) {
     for (let i = 0; i < n; i++) args.push({ t: 'probe', site: P.nextSite++ })
     return rng.chance(1, 2) ? { t: 'call', id, label, m: 'concat', recv: { t: 'probe', site: P.nextSite++ }, args, recvShape: 'plain', form: 'method' } : { t: 'tpl', id, label, ops: args }
   }
+  // a template whose substitutions are all arithmetic (numbers, no string operand survives): whatever the
+  // rewriter decides to do with it, it must not leave a temporary unassigned
+  if (!nested && rng.chance(1, 25)) return { t: 'tplarith', id, label, sites: [P.nextSite++, P.nextSite++, P.nextSite++], forms: [rng.below(5), rng.below(5), rng.below(5)], n: rng.range(1, 3) }
   const pickOp = rng.below(nested ? 8 : 10)
   if (pickOp === 7) {
     // a configured method that may be called without a callee: aloneMethod(arg, arg, ...)
@@ -169,7 +172,7 @@ function genOpExpr (rng, ctx, d, label, nested) {
     default:
       // an optional chain whose argument is a closure (called back at once) that holds an optional
       // chain with a configured method: the inner chain belongs to the closure's activation
-      if (rng.chance(1, 3)) return { t: 'optclosure', id, label, site: P.nextSite++, m: rng.pick(['trim', 'trimEnd']), shape: rng.below(5) }
+      if (rng.chance(1, 3)) return { t: 'optclosure', id, label, site: P.nextSite++, m: rng.pick(['trim', 'trimEnd']), shape: rng.below(7) }
       return { t: 'optcall', id, label, site: P.nextSite++, m: rng.pick(['trim', 'trimEnd']) }
   }
 }
@@ -202,6 +205,7 @@ function render (P) {
     switch (e.t) {
       case 'probe': case 'yield': case 'await': case 'fnarg': return [[e.site]]
       case 'optcall': case 'optclosure': return [[e.site]]
+      case 'tplarith': return [[]]
       case 'optfn': return [[e.arg.site]]
       case 'alone': return cat(e.args.map(altsOf))
       case 'cond': return altsOf(e.cons).concat(altsOf(e.alt))
@@ -277,6 +281,10 @@ function render (P) {
         reg(e, 'trim', [e.site], e.label)
         return `$.o(${A}, ${e.site})?.${e.m}()`
       }
+      case 'tplarith': {
+        const arith = (i) => { const p = `$.p(${A}, ${e.sites[i]})`; return [`${p} * 1`, `-${p}`, `+${p}`, `${p} - 0`, `~${p}`][e.forms[i]] }
+        return '`' + Array.from({ length: e.n }, (_, i) => `${i ? 'px' : ''}\${${arith(i)}}`).join('') + 'em`'
+      }
       case 'optclosure': {
         reg(e, 'trim', [e.site], e.label)
         const inner = `$.o(${A}, ${e.site})?.${e.m}()`
@@ -285,6 +293,8 @@ function render (P) {
           case 1: return `$.n([1])?.map(function (x2) { return ${inner}; })`
           case 2: return `$.n({ f: (g) => g() })?.f(() => ${inner})`
           case 3: return `$.n([$.o(${A}, ${e.site})])?.map((x2) => x2?.${e.m}())`
+          case 5: return `$.n({ f: (o) => o.v })?.f({ get v() { return ${inner}; } })`
+          case 6: return `$.n({ f: (o) => { o.v = 1; return 0; } })?.f({ set v(x2) { ${inner}; } })`
           default: return `$.n({ f: (g) => g() })?.f?.(function () { return [${inner}]; })`
         }
       }
